@@ -49,6 +49,12 @@ def drive : List String → String
   | "hop" :: n :: carrier :: rest => driveHop n carrier rest
   -- the same chain with challenging registries and the auth transport (no credentials) in the clients
   | "hopa" :: n :: carrier :: rest => driveHop n carrier rest
+  -- clients that page (the error arrives with the second request); servers that know external locations
+  | "hopp" :: n :: carrier :: rest => driveHop n carrier rest
+  | "hopl" :: n :: carrier :: rest =>
+    -- such a server asks `ResolveBlob` before a blob read: from the second hop on the error is HEAD-carried
+    if (carrier == "GetBlob" || carrier == "GetBlobRange") && n.toNat?.getD 0 ≥ 2 then "skip"
+    else driveHop n carrier rest
   | "hopbig" :: _ => "skip"     -- error bodies beyond the client's size limit: not modelled
   | _ => "bad-op"
 
